@@ -88,3 +88,49 @@ Proof.
   destruct (is_dir_at f (parent cq)) as [[|]|]; destruct cq; try (split; [reflexivity|discriminate]).
   rewrite Hj. split; [reflexivity|discriminate].
 Qed.
+
+(** ** The linearization points, in the kernel model *)
+
+(** An accepted rename binds the destination name to the source's inode, atomically
+    (one call): this is where [set] takes effect. *)
+Theorem rename_binds f e p q cp cq i :
+  resolve f p = inl cp -> resolve f q = inl cq -> name_of f cp = Some i ->
+  snd (sem f e (CRename p q)) = ROk -> name_of (fst (sem f e (CRename p q))) cq = Some i.
+Proof.
+  intros Hp Hq Hi. cbn [sem]. rewrite Hp, Hq, Hi.
+  destruct (is_dir_at f (parent cq)) as [[|]|]; destruct cq as [|c0 cq0]; cbn [fst snd]; try discriminate.
+  destruct (name_of f (c0 :: cq0)) as [j|] eqn:Hj.
+  - destruct (Nat.eqb_spec i j) as [->|Hne]; cbn [fst snd]; [intros _; exact Hj|].
+    destruct (inode_of f j) as [yj|]; cbn [fst snd]; try discriminate.
+    destruct (i_dir yj); cbn [fst snd]; try discriminate.
+    intros _. autorewrite with fseff. cbn [alookup]. rewrite path_eqb_refl. reflexivity.
+  - cbn [fst snd]. intros _. autorewrite with fseff. cbn [alookup]. rewrite path_eqb_refl. reflexivity.
+Qed.
+
+(** An accepted link binds the (previously absent) destination name to the source's inode. *)
+Theorem link_binds f e p q cp cq i :
+  resolve f p = inl cp -> resolve f q = inl cq -> name_of f cp = Some i ->
+  snd (sem f e (CLink p q)) = ROk -> name_of (fst (sem f e (CLink p q))) cq = Some i.
+Proof.
+  intros Hp Hq Hi. cbn [sem]. rewrite Hp, Hq, Hi. unfold with_inode.
+  destruct (is_dir_at f (parent cq)) as [[|]|]; destruct cq as [|c0 cq0]; cbn [fst snd]; try discriminate.
+  destruct (name_of f (c0 :: cq0)); cbn [fst snd]; try discriminate.
+  destruct (inode_of f i) as [y|]; cbn [fst snd]; try discriminate.
+  destruct (i_dir y); cbn [fst snd]; try discriminate.
+  intros _. autorewrite with fseff. cbn [alookup]. rewrite path_eqb_refl. reflexivity.
+Qed.
+
+(** A successful open returns a descriptor on the inode the name is bound to at
+    that instant: this is where [get] takes effect; whatever happens to the name
+    afterwards, the descriptor keeps that inode (Conc/Effect.v, [sem_fdino]). *)
+Theorem open_reads_binding f e p a cp d :
+  resolve f p = inl cp -> snd (sem f e (COpen p a)) = RFd d ->
+  exists i, name_of f cp = Some i /\ fdino (fst (sem f e (COpen p a))) d = Some i.
+Proof.
+  intros Hp. cbn [sem]. rewrite Hp. unfold with_inode.
+  destruct (name_of f cp) as [i|]; cbn [fst snd]; try discriminate.
+  destruct (inode_of f i) as [x|]; cbn [fst snd]; try discriminate.
+  destruct (i_dir x && _)%bool; cbn [fst snd]; try discriminate.
+  rewrite (alloc_fd_eq f). cbn [fst snd]. intros H. injection H as <-.
+  exists i. split; [reflexivity|]. autorewrite with fseff. rewrite Nat.eqb_refl. reflexivity.
+Qed.
